@@ -377,3 +377,13 @@ extern "C" void frg_log(const char *msg) {
 	(void)msg;
 }
 #endif
+
+// Default hook (E1 engines): counts how often the library's verification points were passed.
+// Concurrent engines (E2/E3) provide a strong definition instead.
+namespace verif { inline uint64_t g_hook_hits = 0; }
+#if !defined(VERIF_SCHED_HOOK) && !defined(VERIF_OWN_HOOK)
+extern "C" __attribute__((weak)) void frg_verif_point(const char *site, const void *obj, unsigned long v) {
+	(void)site; (void)obj; (void)v;
+	verif::g_hook_hits++;
+}
+#endif
